@@ -18,6 +18,7 @@ type vCase struct {
 	Hang     bool        `json:"hang"`
 	Skip     bool        `json:"skip"`
 	Race     bool        `json:"race"`
+	Shared   bool        `json:"shared"`
 }
 
 type vOut struct {
@@ -41,7 +42,7 @@ func vRunCase(c vCase) (out vOut) {
 	vOtherMu.Lock()
 	vOtherRanks, vAsyncMsg = map[uint64]*[]int{}, ""
 	vOtherMu.Unlock()
-	vRaceMode, vRaceStop = c.Race, make(chan struct{})
+	vRaceMode, vRaceShared, vRaceStop = c.Race, c.Shared, make(chan struct{})
 	defer func() {
 		if vRaceMode {
 			time.Sleep(100 * time.Millisecond) // let the touchers meet the last accesses of the path
